@@ -91,6 +91,7 @@ def Value.typeOf {N : Type} : Value N → Bytes
 /-- `RuntimeErrorKind` without payloads. -/
 inductive RtKind where
   | io | divisionByZero | stackOverflow | indexOutOfBounds | typeMismatch | invalidIndex
+  | undefinedVariable
   | processUnsupported | processDenied | processSpawnFailed | processTimeout
   | processOutputLimitExceeded | processInvalidUtf8 | processSpecInvalid
 deriving Repr, DecidableEq, Inhabited
@@ -99,15 +100,17 @@ deriving Repr, DecidableEq, Inhabited
 def RtKind.name : RtKind → String
   | .io => "Io" | .divisionByZero => "DivisionByZero" | .stackOverflow => "StackOverflow"
   | .indexOutOfBounds => "IndexOutOfBounds" | .typeMismatch => "TypeMismatch"
-  | .invalidIndex => "InvalidIndex" | .processUnsupported => "ProcessUnsupported"
+  | .invalidIndex => "InvalidIndex" | .undefinedVariable => "UndefinedVariable"
+  | .processUnsupported => "ProcessUnsupported"
   | .processDenied => "ProcessDenied" | .processSpawnFailed => "ProcessSpawnFailed"
   | .processTimeout => "ProcessTimeout"
   | .processOutputLimitExceeded => "ProcessOutputLimitExceeded"
   | .processInvalidUtf8 => "ProcessInvalidUtf8" | .processSpecInvalid => "ProcessSpecInvalid"
 
-/-- One constructor per `unreachable!/unimplemented!/assert!/expect/args[i]/unwrap` site of
-`runtime.rs` and `builtins/*` that an AST can reach (see `Gen/PanicSites.lean` and
-`Props/C06Eval.lean` for the accounting against the source). -/
+/-- One constructor per site of `runtime.rs` and `builtins/*` that an AST can reach and that is — or,
+in the originally pinned tree, was — an `unreachable!/unimplemented!/assert!/expect/args[i]`
+(see `PanicSite.fixed`, `Gen/PanicSites.lean` and `Props/C06Eval.lean` for the accounting against
+the source). -/
 inductive PanicSite where
   | ifCond | loopCond | numLit | varLookup | andRhs | orRhs
   | strOp | strNumOp | numStrOp | boolOp | nullNullOp | nullOp | mismatchOp | unaryOp
@@ -124,64 +127,35 @@ inductive PanicSite where
   | twMaximalSuffix
 deriving Repr, DecidableEq, Inhabited
 
-/-- The label (`Gen/PanicSites.lean`: `<file>.<fn>.<kind>.<ordinal>`) of the source site a
-constructor stands for. -/
-def PanicSite.label : PanicSite → Bytes
-  | .ifCond => b!"runtime.exec_stmt.unreachable.0"
-  | .loopCond => b!"runtime.exec_stmt.unreachable.1"
-  | .numLit => b!"runtime.eval_expr.expect.0"
-  | .varLookup => b!"runtime.eval_expr.expect.1"
-  | .andRhs => b!"runtime.eval_expr.unreachable.0"
-  | .orRhs => b!"runtime.eval_expr.unreachable.1"
-  | .strOp => b!"runtime.eval_expr.unreachable.3"
-  | .strNumOp => b!"runtime.eval_expr.assert.0"
-  | .numStrOp => b!"runtime.eval_expr.assert.1"
-  | .boolOp => b!"runtime.eval_expr.unreachable.4"
-  | .nullNullOp => b!"runtime.eval_expr.unreachable.5"
-  | .nullOp => b!"runtime.eval_expr.unreachable.6"
-  | .mismatchOp => b!"runtime.eval_expr.unreachable.7"
-  | .unaryOp => b!"runtime.eval_expr.unreachable.8"
-  | .indexBase => b!"runtime.eval_expr.unreachable.9"
-  | .bareMember => b!"runtime.eval_expr.unreachable.10"
-  | .calleeShape => b!"runtime.eval_function_call.unreachable.1"
-  | .callArity => b!"runtime.eval_function_call.assert_eq.0"
-  | .flowEscape => b!"runtime.eval_function_call.unreachable.2"
-  | .builtinArity => b!"runtime.eval_builtin_call.assert_eq.0"
-  | .commandArg => b!"runtime.eval_builtin_call.unreachable.0"
-  | .boolReceiver => b!"runtime.eval_member_call.unimplemented.0"
-  | .pushArg0 => b!"runtime.eval_array_member_call_mut.args.0"
-  | .cmdArg0 => b!"runtime.eval_process_command_call_mut.args.0"
-  | .cmdCwd0 => b!"runtime.eval_process_command_call_mut.args.1"
-  | .cmdEnv0 => b!"runtime.eval_process_command_call_mut.args.2"
-  | .cmdEnv1 => b!"runtime.eval_process_command_call_mut.args.3"
-  | .cmdStdinText0 => b!"runtime.eval_process_command_call_mut.args.4"
-  | .cmdTimeout0 => b!"runtime.eval_process_command_call_mut.args.5"
-  | .joinArg0 => b!"runtime.eval_array_member_call.args.0"
-  | .joinSep => b!"runtime.eval_array_member_call.unreachable.0"
-  | .sliceArg0 => b!"runtime.eval_string_member_call.args.0"
-  | .sliceArg1 => b!"runtime.eval_string_member_call.args.1"
-  | .sliceArgs => b!"runtime.eval_string_member_call.unreachable.0"
-  | .findArg0 => b!"runtime.eval_string_member_call.args.2"
-  | .findNeedle => b!"runtime.eval_string_member_call.unreachable.1"
-  | .replaceArg0 => b!"runtime.eval_string_member_call.args.3"
-  | .replaceArg1 => b!"runtime.eval_string_member_call.args.4"
-  | .replaceArgs => b!"runtime.eval_string_member_call.unreachable.2"
-  | .splitArg0 => b!"runtime.eval_string_member_call.args.5"
-  | .splitPat => b!"runtime.eval_string_member_call.unreachable.3"
-  | .mutArrVar => b!"runtime.get_mutable_array.expect.0"
-  | .mutArrBase => b!"runtime.get_mutable_array.expect.1"
-  | .mutCmdVar => b!"runtime.get_mutable_process_command.expect.0"
-  | .mutCmdBase => b!"runtime.get_mutable_process_command.expect.1"
-  | .segLookup => b!"runtime.eval_string_expr.expect.1"
-  | .assignLookup => b!"runtime.assign_bound_local.unreachable.0"
-  | .assignVarLookup => b!"runtime.assign_var.unreachable.0"
-  | .assignIndexLookup => b!"runtime.assign_index.expect.0"
-  | .assignIndexEmpty => b!"runtime.assign_index.unreachable.0"
-  | .indexTargetRoot => b!"runtime.flatten_index_target.unreachable.0"
-  | .fnByName => b!"runtime.lookup_func_by_name.expect.0"
-  | .fnById => b!"runtime.lookup_func_by_id.expect.0"
-  | .paramRange => b!"runtime.bound_param_ids.assert.0"
-  | .twMaximalSuffix => b!"tw.maximal_suffix.index.1"
+/-- `true`: the site was a panic (`unreachable!`, `assert!`, `unimplemented!`, `expect`, `args[i]`)
+in the originally pinned tree and is an ordinary runtime error since the `fix:` commit for D-06 /
+D-04 (it is reachable by accepted programs through dynamic typing, a short argument list on a
+dynamic receiver, a bare member expression, a call before the captured variable's `make`, …).
+`false`: RESIDUAL site — still a panic in the source; no accepted program reaches it (scanner:
+number lexemes parse; resolver: arity of user and global calls, callee exists, `comot`/`next` stay
+inside a loop of the same function, parameter ids fit the local range; parser: an index assignment
+has an index; C13: `maximal_suffix` reads in range). -/
+def PanicSite.fixed : PanicSite → Bool
+  | .numLit | .callArity | .flowEscape | .builtinArity | .paramRange | .fnByName | .fnById
+  | .assignIndexEmpty | .twMaximalSuffix => false
+  | _ => true
+
+/-- The label (`Gen/PanicSites.lean`: `<file>.<fn>.<kind>.<ordinal>`) of the source site a RESIDUAL
+constructor stands for (`none` for the fixed ones: they are no panic sites any more). -/
+def PanicSite.srcLabel : PanicSite → Option Bytes
+  | .numLit => some (b!"runtime.eval_expr.expect.0")
+  | .callArity => some (b!"runtime.eval_function_call.assert_eq.0")
+  | .flowEscape => some (b!"runtime.eval_function_call.unreachable.1")
+  | .builtinArity => some (b!"runtime.eval_builtin_call.assert_eq.0")
+  | .assignIndexEmpty => some (b!"runtime.assign_index.unreachable.0")
+  | .fnByName => some (b!"runtime.lookup_func_by_name.expect.0")
+  | .fnById => some (b!"runtime.lookup_func_by_id.expect.0")
+  | .paramRange => some (b!"runtime.bound_param_ids.assert.0")
+  | .twMaximalSuffix => some (b!"tw.maximal_suffix.index.1")
+  | _ => none
+
+/-- A printable name of the site: its source label, `fixed-site` for the fixed ones. -/
+def PanicSite.label (s : PanicSite) : Bytes := s.srcLabel.getD (b!"fixed-site")
 
 /-- All constructors (for `decide`d coverage statements). -/
 def PanicSite.all : List PanicSite :=
